@@ -23,6 +23,8 @@ type c20Key struct {
 	End   bool   `json:"end,omitempty"`   // cursor to the end
 	Enter bool   `json:"enter,omitempty"` // Enter (always pressed with the cursor at the end)
 	Ctl   bool   `json:"ctl,omitempty"`   // use the control-key form (^B ^A ^E) instead of the escape sequence
+	Up    int    `json:"up,omitempty"`    // arrow-up pressed this many times (recall earlier statements)
+	Down  int    `json:"down,omitempty"`  // arrow-down pressed this many times
 }
 
 type c20EditCase struct {
@@ -59,6 +61,12 @@ func c20EditGen(t *rapid.T) c20EditCase {
 				typed += len([]rune(x))
 				add(c20Key{End: true, Ctl: rapid.Bool().Draw(t, "ctl2")})
 			}
+			if rapid.IntRange(0, 11).Draw(t, "peek") == 0 {
+				// a look into the history in the middle of typing, and back down to the line being typed
+				k := rapid.IntRange(1, 4).Draw(t, "peek_up")
+				add(c20Key{Up: k})
+				add(c20Key{Down: k})
+			}
 			switch rapid.IntRange(0, 4).Draw(t, "sep") {
 			case 0: // the statement goes on on the next line
 				add(c20Key{Enter: true})
@@ -73,6 +81,18 @@ func c20EditGen(t *rapid.T) c20EditCase {
 		if i == ns-1 || rapid.Bool().Draw(t, "enterafter") {
 			add(c20Key{Enter: true})
 			typed = 0
+			// statements recalled from the history and submitted again, as they are or with something appended
+			for rapid.IntRange(0, 2).Draw(t, "recall") == 0 {
+				k := rapid.IntRange(1, 5).Draw(t, "recall_up")
+				add(c20Key{Up: k})
+				if rapid.IntRange(0, 2).Draw(t, "recall_back") == 0 {
+					add(c20Key{Down: rapid.IntRange(1, k).Draw(t, "recall_down")})
+				}
+				if rapid.IntRange(0, 3).Draw(t, "recall_more") == 0 {
+					add(c20Key{Text: rapid.SampledFrom([]string{" ", " x;", " select 'a;b' ;", ";"}).Draw(t, "recall_text")})
+				}
+				add(c20Key{Enter: true})
+			}
 		}
 	}
 	// close whatever a correction may have left open, so that most sessions end with a submission
@@ -97,8 +117,39 @@ func c20EditModel(keys []c20Key) (raw string, want []string) {
 	var buf []rune
 	pos := 0
 	var sb strings.Builder
+	// the history: every statement submitted so far, most recent last; hIdx = how far back the line
+	// shown is (-1: the line being typed, which is kept while the user looks around)
+	var hist []string
+	hIdx, pending := -1, ""
 	for _, k := range keys {
 		switch {
+		case k.Up > 0:
+			for i := 0; i < k.Up; i++ {
+				sb.WriteString("\x1b[A")
+				if hIdx+1 >= len(hist) || hIdx+1 >= 100 {
+					continue
+				}
+				if hIdx == -1 {
+					pending = string(buf)
+				}
+				hIdx++
+				buf = []rune(hist[len(hist)-1-hIdx])
+				pos = len(buf)
+			}
+		case k.Down > 0:
+			for i := 0; i < k.Down; i++ {
+				sb.WriteString("\x1b[B")
+				switch {
+				case hIdx == -1:
+				case hIdx == 0:
+					buf, hIdx = []rune(pending), -1
+					pos = len(buf)
+				default:
+					hIdx--
+					buf = []rune(hist[len(hist)-1-hIdx])
+					pos = len(buf)
+				}
+			}
 		case k.Text != "":
 			if k.Paste {
 				sb.WriteString("\x1b[200~" + k.Text + "\x1b[201~")
@@ -159,10 +210,12 @@ func c20EditModel(keys []c20Key) (raw string, want []string) {
 			if strings.TrimSpace(string(rest)) == "" {
 				begin := 0
 				for _, e := range ends {
-					want = append(want, c20Normalise(strings.TrimSpace(string(buf[begin:e+1]))))
+					piece := strings.TrimSpace(string(buf[begin : e+1]))
+					want = append(want, c20Normalise(piece))
+					hist = append(hist, piece)
 					begin = e + 1
 				}
-				buf, pos = nil, 0
+				buf, pos, hIdx = nil, 0, -1
 			} else {
 				buf = append(buf[:pos:pos], append([]rune{' '}, buf[pos:]...)...)
 				pos++
@@ -202,6 +255,15 @@ func c20EditRun(c c20EditCase, st *vlib.Stats) string {
 	}
 	b, _ := json.Marshal(c)
 	edits, multiline := 0, false
+	recalls := 0
+	for _, k := range c.EditKeys {
+		if k.Up > 0 {
+			recalls++
+		}
+	}
+	if recalls > 0 {
+		st.Label("history-recall", 1)
+	}
 	for i, k := range c.EditKeys {
 		if k.Left > 0 || k.Home {
 			edits++
